@@ -2,6 +2,8 @@ import GstVerif.Trans.Model
 import Mathlib.LinearAlgebra.Matrix.DotProduct
 import Mathlib.Data.Matrix.Mul
 import Mathlib.Tactic.Ring
+import Mathlib.Tactic.FieldSimp
+import Mathlib.Tactic.Linarith
 /-!
 # C18 — data transforms and their inverses compose to the identity
 
@@ -64,5 +66,39 @@ theorem hermite_orthogonal_below_12 : orthoTable 12 = true := by decide +kernel
 /-- recurrence values agree with the coefficient form (anchor): `He_4(2) = 16 - 24 + 3` -/
 example : (heValues 2 5).getD 4 0 = -5 := by decide +kernel
 example : hePoly 4 = [3, 0, -6, 0, 1] := by decide +kernel
+
+/-! ### extension of a continuous anamorphosis beyond its practical interval -/
+
+/-- raw → Gaussian → raw (and conversely) is the identity on the extension zone: the two linear
+extensions joining the practical bound to the absolute bound are inverse of each other -/
+theorem extend_roundtrip (a0 p0 a1 p1 x : Q) (h0 : p0 ≠ a0) (h1 : p1 ≠ a1) :
+    extend a1 p1 a0 p0 (extend a0 p0 a1 p1 x) = x := by
+  unfold extend
+  have e0 : p0 - a0 ≠ 0 := sub_ne_zero.mpr h0
+  have e1 : p1 - a1 ≠ 0 := sub_ne_zero.mpr h1
+  field_simp
+  ring
+
+/-- the extension joins the two bounds … -/
+theorem extend_ends (a0 p0 a1 p1 : Q) (h0 : p0 ≠ a0) :
+    extend a0 p0 a1 p1 a0 = a1 ∧ extend a0 p0 a1 p1 p0 = p1 := by
+  unfold extend
+  have e0 : p0 - a0 ≠ 0 := sub_ne_zero.mpr h0
+  constructor
+  · simp
+  · field_simp; ring
+
+/-- … and is increasing when the practical bounds are on the same side of the absolute ones -/
+theorem extend_mono (a0 p0 a1 p1 x y : Q) (h0 : p0 < a0) (h1 : p1 < a1) (hxy : x ≤ y) :
+    extend a0 p0 a1 p1 x ≤ extend a0 p0 a1 p1 y := by
+  unfold extend
+  have e0 : p0 - a0 < 0 := by linarith
+  have e1 : p1 - a1 < 0 := by linarith
+  -- the slope `(p1 − a1) / (p0 − a0)` is positive
+  have hs : 0 < (p1 - a1) / (p0 - a0) := by rw [← neg_div_neg_eq]; exact div_pos (by linarith) (by linarith)
+  have hx : (p1 - a1) * (x - a0) / (p0 - a0) = (p1 - a1) / (p0 - a0) * (x - a0) := by ring
+  have hy : (p1 - a1) * (y - a0) / (p0 - a0) = (p1 - a1) / (p0 - a0) * (y - a0) := by ring
+  rw [hx, hy]
+  nlinarith
 
 end GstProofs.C18
